@@ -21,7 +21,9 @@ ROOT = os.path.dirname(os.path.dirname(os.path.abspath(__file__)))
 LEAN = os.path.join(ROOT, "lean")
 HARNESS = os.path.join(ROOT, "harness")
 DRIVER = os.path.join(LEAN, ".lake", "build", "bin", "driver")
-EVID = os.path.join(ROOT, "evidence")
+# the self-test with seeded changes (tools/run_seeds.py) redirects its evidence so that the committed evidence files
+# always describe the unchanged tree
+EVID = os.environ.get("VERIF_EVIDENCE_DIR") or os.path.join(ROOT, "evidence")
 REPLAYS = os.path.join(EVID, "replays")
 ALLOWED_AXIOMS = {"propext", "Classical.choice", "Quot.sound"}
 FORBIDDEN = re.compile(r"\b(sorry|admit|native_decide|bv_decide|implemented_by|unsafe)\b|^axiom |maxHeartbeats 0")
